@@ -30,7 +30,8 @@ RULE = ('histories of k<=6 raw edits on one live tree per corpus program, refuse
         'block statement kind x every combination of optional blocks x nesting (identity re-put of each header token and of '
         'the first two letters, every gap collapsed / widened / turned into a continuation, names renamed or parenthesised); '
         'every block kind nested in every block kind (and `match` between two others) with the innermost last statement edited '
-        'so that it ends before / at / after the end of the put text; raw node puts with `to=` a later node (same statement, '
+        'so that it ends before / at / after the end of the put text or gets a trailing semicolon (which belongs to the '
+        'enclosing blocks); raw node puts with `to=` a later node (same statement, '
         'later `;` statement on the same line, later line); raw-mode slice puts (put_slice(..., raw=True)) to `_body`, orelse, '
         'finalbody, handlers and cases - every [start:stop) of templates with decorated defs/classes, docstrings and trailing '
         'comments x every replacement text, the replaced rectangle taken from CPython positions (first decorator .. end of the '
@@ -448,6 +449,11 @@ DIRECTED = [
     ('x = 1; y = [1,\n 2]\nz = 3', [1, 1, 1, 2], '22'),
     ('if a: y = (1,\n  2)\nz = 3', [0, 11, 1, 3], '4,\n 5,\n 6'),
     ('x = 1; y = [1,\n 2]', [0, 12, 0, 13], 'k'),
+    # a trailing semicolon created on the last statement of a block (one-line bodies too)
+    ('if x:\n  a = 1\nb = 2', [1, 6, 1, 7], '1;'),
+    ('class C:\n  def f(): a = 1\nb', [1, 15, 1, 16], '1 ;'),
+    ('if x: a = 1', [0, 10, 0, 11], '1;'),
+    ('def f():\n    for i in x: y = i\n', [1, 20, 1, 21], 'i ;  # c'),
     # whole statement in each wrapper family
     ('def f():\n    try:\n        a\n    except E as e:\n        b\n    except F:\n        c\n', [4, 8, 4, 9], 'bb = 1'),
     ('def f():\n    match x:\n        case 1:\n            pass\n        case [a, b] if a:\n            y = 2\n', [5, 16, 5, 17], '33'),
